@@ -166,7 +166,10 @@ def run_shard(args):
         return {'lane': lane_name, 'shard': shard, 'error': ''.join(traceback.format_exception(type(e), e, e.__traceback__))}
 
 
-CASE_TIME_LIMIT = 90          # seconds; normal cases take milliseconds
+# seconds of CPU time of the worker process (ITIMER_PROF: independent of the load of the machine); normal cases take
+# milliseconds, the slowest legitimate ones a few seconds
+CASE_TIME_LIMIT = int(os.environ.get('VLIB_CASE_LIMIT', '40'))
+CASE_WALL_LIMIT = 900         # seconds of wall-clock time: beyond it a case is inconclusive (discarded), not a failure
 WORKER_MEMORY_LIMIT = 4 << 30  # bytes of address space per worker process
 
 
@@ -174,8 +177,16 @@ class CaseTimeout(BaseException):
     pass
 
 
+class WallTimeout(BaseException):
+    pass
+
+
 def _on_alarm(signum, frame):
     raise CaseTimeout()
+
+
+def _on_wall(signum, frame):
+    raise WallTimeout()
 
 
 def guarded(check):
@@ -184,17 +195,23 @@ def guarded(check):
     import signal
 
     def run(case):
-        old = signal.signal(signal.SIGALRM, _on_alarm)
-        signal.alarm(CASE_TIME_LIMIT)
+        old = signal.signal(signal.SIGPROF, _on_alarm)
+        old_alrm = signal.signal(signal.SIGALRM, _on_wall)
+        signal.setitimer(signal.ITIMER_PROF, CASE_TIME_LIMIT)
+        signal.alarm(CASE_WALL_LIMIT)
         try:
             return check(case)
         except CaseTimeout:
-            return FAIL('hang:>%ds' % CASE_TIME_LIMIT, 'the case did not finish within %d s:\n%r' % (CASE_TIME_LIMIT, jsonable(case)))
+            return FAIL('hang:>%ds' % CASE_TIME_LIMIT, 'the case did not finish within %d s of CPU time:\n%r' % (CASE_TIME_LIMIT, jsonable(case)))
+        except WallTimeout:
+            return DISCARD('wall-clock-limit')
         except MemoryError:
             return FAIL('memory:>%dGB' % (WORKER_MEMORY_LIMIT >> 30), 'the case exhausted the memory limit:\n%r' % (jsonable(case),))
         finally:
+            signal.setitimer(signal.ITIMER_PROF, 0)
             signal.alarm(0)
-            signal.signal(signal.SIGALRM, old)
+            signal.signal(signal.SIGPROF, old)
+            signal.signal(signal.SIGALRM, old_alrm)
     return run
 
 
